@@ -226,7 +226,6 @@ type c01ClassDef struct {
 }
 
 var c01Classes = []c01ClassDef{
-	{"directive-variable", func(o opFacts, d dataFacts, sh bool) bool { return o.DirectiveVariable }, []string{"invalid-subrequest/undefined-variable"}},
 	{"directive-on-flattened-selection", func(o opFacts, d dataFacts, sh bool) bool { return o.Directive }, []string{"wrong-data"}},
 	{"root-typename", func(o opFacts, d dataFacts, sh bool) bool { return o.RootTypename }, []string{"error/internal-service-url"}},
 	{"aliased-helper", func(o opFacts, d dataFacts, sh bool) bool { return o.AliasedHelper }, []string{"error/missing-id", "invalid-subrequest/field-conflict", "wrong-data"}},
@@ -236,7 +235,6 @@ var c01Classes = []c01ClassDef{
 	{"node-root-fragment", func(o opFacts, d dataFacts, sh bool) bool { return o.NodeRoot }, []string{"invalid-subrequest/unknown-field", "error/internal-service-url", "wrong-data", "error/missing-id"}},
 	{"abstract-type-selection", func(o opFacts, d dataFacts, sh bool) bool { return o.Abstract }, []string{"invalid-subrequest/unknown-field", "wrong-data", "error/missing-id"}},
 	{"variable-named-id", func(o opFacts, d dataFacts, sh bool) bool { return o.VarNamedID }, []string{"invalid-subrequest/other", "wrong-data", "invalid-subrequest/undefined-variable"}},
-	{"var-default", func(o opFacts, d dataFacts, sh bool) bool { return o.VarDefault }, []string{"wrong-data"}},
 	{"null-in-object-list", func(o opFacts, d dataFacts, sh bool) bool { return d.NullObjElems }, []string{"error/null-list-entry", "wrong-data"}},
 }
 
